@@ -46,6 +46,30 @@ Theorem routed_services_exact : forall inputs u,
   In u (tm_urls (tm_of inputs)) <-> exists T f, tm_get (tm_of inputs) T f = Some u.
 Proof. exact urls_exact. Qed.
 
+(* ---- the table as the planner reads it (PlanningContext.GetURL) ---- *)
+
+(* a root field goes to the one service that declared it — asked from any parent service (fb), at any depth
+   of any operation: the function has no other input than the table, the type, the field and fb *)
+Theorem root_field_goes_to_its_declarer : forall inputs u s T f fb,
+  is_root T = true ->
+  In (u, s) inputs -> declares s T f ->
+  (forall u' s', In (u', s') inputs -> declares s' T f -> u' = u) ->
+  get_url (tm_of inputs) T f fb = RUrl u.
+Proof. exact Merge.TypeUrlProofs.root_field_goes_to_its_declarer. Qed.
+
+(* every routed field of a root type or of a type stitchable by id is read as its route *)
+Theorem routed_field_is_read_as_routed : forall tm T f fb u,
+  is_builtin f = false -> tm_get tm T f = Some u ->
+  is_root T = true \/ tm_is_node tm T = Some true ->
+  get_url tm T f fb = RUrl u.
+Proof. exact get_url_routed. Qed.
+
+(* fields of a type that is neither a root nor stitchable stay with the service of the parent step *)
+Theorem shared_type_stays_with_parent : forall tm T f fb,
+  tm_is_node tm T = Some false -> is_root T = false -> fb <> internal_service ->
+  get_url tm T f fb = RUrl fb.
+Proof. exact Merge.TypeUrlProofs.shared_type_stays_with_parent. Qed.
+
 (* non-vacuity *)
 Definition exA : schema :=
   [mkDef KInterface "Node" "" [] [mkField "id" [] "ID!"] [] [];
@@ -60,6 +84,11 @@ Example c04_nonvacuous :
     tm_get tm "N0" "a" = Some "A" /\ tm_get tm "N0" "b" = Some "B" /\ tm_get tm "Query" "qb" = Some "B" /\
     tm_get tm "Query" "node" = None /\ tm_is_node tm "N0" = Some true /\ tm_is_node tm "Query" = Some false.
 Proof. eexists. eexists. split; [vm_compute; reflexivity|]. repeat split. Qed.
+(* Query.qb asked from service A (say below a mutation payload served by A) still goes to B *)
+Example c04_route_nonvacuous :
+  get_url (tm_of [("A", exA); ("B", exB)]) "Query" "qb" "A" = RUrl "B" /\
+  get_url (tm_of [("A", exA); ("B", exB)]) "N0" "a" "B" = RUrl "A".
+Proof. split; vm_compute; reflexivity. Qed.
 
 Print Assumptions routes_are_last_declarer.
 Print Assumptions routes_owned.
@@ -68,3 +97,6 @@ Print Assumptions unique_declarer_is_the_route.
 Print Assumptions merged_fields_routed.
 Print Assumptions node_flag_iff_implements.
 Print Assumptions routed_services_exact.
+Print Assumptions root_field_goes_to_its_declarer.
+Print Assumptions routed_field_is_read_as_routed.
+Print Assumptions shared_type_stays_with_parent.
